@@ -314,7 +314,7 @@ fn desc_case(rep: &mut Report, case: u64, rng: &mut Rng, world: &World, s: &str)
 
 fn policy_case(rep: &mut Report, case: u64, rng: &mut Rng) {
     let nm = AbstractPolNames;
-    let pcfg = PolGenCfg { max_leaves: 8, n_keys: 6, n_hash: 2, concrete: true, constants: rng.coin(), repeat_atoms: true, timelocks: true, hashes: true, max_depth: 4 };
+    let pcfg = PolGenCfg { max_leaves: 8, n_keys: 6, n_hash: 2, concrete: true, constants: rng.coin(), repeat_atoms: true, timelocks: true, hashes: true, max_depth: 4, timelock_heavy: false };
     let leaves = 1 + rng.below(8);
     let p = PolGen::new(rng, pcfg).gen(leaves, 0);
     let ren = |k: &str| format!("L{}", &k[1..]);
